@@ -13,6 +13,10 @@
 //   cfg maxexec <ms> | loopprot <0|1> | depth <n> | clockstep <ms> | stream <level> <0|1> | developer <0|1>
 //   reset-director             director.Reset()
 //   save / load                archive the director to memory / Reset + read it back
+//   c14reset                   (C14, unwind model) fresh context, clock 0, clock step 0, default streams /
+//                              developer flag / nesting limit, and switch the answers to the C14 observation
+//                              format: `ok|err <kind> out=[…] idle cls thr vm tim ev cur prev depth clk dbg warn err verb=[d.d…]`
+//                              (`reset` switches back)
 //
 // Answer: `ok out=[l1|l2|…] ret=<v> idle=<b> cls=<n> thr=<n> vm=<n> tim=<n> ev=<n>` or `err <kind> …` with the
 // same trailer.  `out` is everything scripts printed on the Output stream during the command.
@@ -49,6 +53,8 @@ std::vector<std::pair<std::unique_ptr<Event>, size_t>> g_events;   // every host
 std::string g_archive;
 bool g_streams[5] = { true, true, true, true, false }; // Output, Warn, Debug, Error, Verbose
 bool g_developer = true;
+bool g_c14obs = false;            // C14 observation format (see c14reset)
+std::string g_diag;               // per-stream diagnostics of the last command (C14 observation format)
 
 std::map<std::string, std::string> g_sources;   // served to the engine through IFileManagement
 
@@ -107,6 +113,21 @@ std::string takeOut()
 {
     std::string s = g_out.str();
     g_out.str(""); g_out.clear();
+    {
+        // C14: what reached each diagnostic stream during the command
+        auto countOf = [](const std::string& h, const std::string& n) { size_t c = 0; for (size_t p = h.find(n); p != std::string::npos; p = h.find(n, p + n.size())) ++c; return c; };
+        const std::string dbg = g_dbg.str(), warn = g_warn.str(), err = g_err.str(), verb = g_verb.str();
+        std::string frames;
+        for (size_t p = verb.find("----FRAME: "); p != std::string::npos; p = verb.find("----FRAME: ", p + 1)) {
+            size_t q = p + 11; std::string num;
+            while (q < verb.size() && isdigit((unsigned char)verb[q])) num += verb[q++];
+            if (!frames.empty()) frames += '.';
+            frames += num;
+        }
+        g_diag = " dbg=" + std::to_string(countOf(dbg, "Update of script position")) +
+                 " warn=" + std::to_string(countOf(warn, "^~^~^ Script Warning")) +
+                 " err=" + std::to_string(countOf(err, "(m, ")) + " verb=[" + frames + "]";
+    }
     g_warn.str(""); g_warn.clear(); g_dbg.str(""); g_dbg.clear(); g_err.str(""); g_err.clear(); g_verb.str(""); g_verb.clear();
     std::string r = "[";
     size_t i = 0; bool first = true;
@@ -132,6 +153,15 @@ std::string trailer()
       << " tim=" << g_ctx->GetDirector().GetTimerList().m_Elements.NumObjects()
       << " ev=" << g_ctx->GetEventQueue().GetNumPendingEvents()
       << " cur=" << (g_ctx->GetDirector().CurrentThread() ? 1 : 0);
+    return o.str();
+}
+
+std::string c14Trailer()
+{
+    std::ostringstream o;
+    o << " prev=" << (g_ctx->GetDirector().PreviousThread() ? 1 : 0)
+      << " depth=" << ScriptExecutionStack::GetStackDepth()
+      << " clk=" << g_clock << g_diag;
     return o.str();
 }
 
@@ -190,6 +220,15 @@ int main()
         try {
             if (op == "reset") {
                 g_archive.clear();
+                g_c14obs = false;
+                freshContext();
+            } else if (op == "c14reset") {
+                g_archive.clear();
+                g_c14obs = true;
+                g_clockStep = 0;
+                for (int i = 0; i < 4; ++i) g_streams[i] = true;
+                g_streams[4] = false; g_developer = true;
+                ScriptExecutionStack::SetMaxStackDepth(20);   // MAX_STACK_DEPTH_DEFAULT
                 freshContext();
             } else if (op == "script" && t.size() >= 3 && (t.size() == 3 || t[3] == "##")) {
                 const std::string& src = (g_sources[t[1]] = unhex(t[2]));
@@ -216,7 +255,7 @@ int main()
                 else g_ctx->GetDirector().ExecuteThread(s, *ev, t[2].c_str());
                 }
                 g_events.emplace_back(std::move(ev), t.size() - 3);     // only successful calls leave a record
-                extra = " ret=" + resultOf(g_events.size() - 1);
+                if (!g_c14obs) extra = " ret=" + resultOf(g_events.size() - 1);
             } else if (op == "callv" && t.size() == 3) {
                 if (t[1][0] == '@') {
                     g_ctx->GetDirector().ExecuteThread(StringResolvable(t[1].c_str() + 1), StringResolvable(t[2].c_str()));
@@ -328,7 +367,10 @@ int main()
             status = "err " + excKind(e);
         }
         if (status == "bad-op") { say("bad-op"); continue; }
-        say(status + " out=" + takeOut() + extra + trailer());
+        {
+            const std::string out = takeOut();
+            say(status + " out=" + out + extra + trailer() + (g_c14obs ? c14Trailer() : std::string()));
+        }
     }
     g_events.clear();
     g_ctx.reset();
